@@ -21,7 +21,9 @@ class NonEmpty(Contract):
         st.vars['self'] = rec
         S = st.acc(sp)
         pre = [cmp('<', t0, t1), spec.valid_train(S, t0, t1, nonempty=False)]
-        return st, pre, Ctx(mode=mode, n=n, S=S, sp=sp, t0=t0, t1=t1, inputs={}, argorder=[])
+        return st, pre, Ctx(mode=mode, n=n, S=S, sp=sp, t0=t0, t1=t1, argorder=[],
+                            inputs=dict(spikes=('array', 'spikes', n), t_start=('real', 't_start'), t_end=('real', 't_end')),
+                            argspec=[('obj', 'SpikeTrain', dict(spikes='spikes', t_start='t_start', t_end='t_end'))])
 
     def posts(self, st, ret, c):
         R_ = st.acc(ret)
@@ -68,7 +70,9 @@ class MethodBase(Contract):
         n1 = size[0]
         rec, A = self.make(st, 'self', n1, mode, values, 'a_')
         pre = self.wf(A)
-        ctx = Ctx(mode=mode, A=A, rec=rec, inputs={}, argorder=[], n1=n1)
+        ctx = Ctx(mode=mode, A=A, rec=rec, argorder=[], n1=n1, check_self=True,
+                  inputs={'a_' + k: ('array', 'a_' + k, A[k].n) for k in A},
+                  argspec=[('obj', self.cls, {k: 'a_' + k for k in A})])
         ctx.old = {k: [A[k][i] for i in range(A[k].n)] for k in A}
         ctx.oldbuf = {k: st.heap[rec.id][k].buf for k in A}
         if self.func == 'add':
@@ -78,9 +82,13 @@ class MethodBase(Contract):
             ctx.B = Bf
             ctx.oldB = {k: [Bf[k][i] for i in range(Bf[k].n)] for k in Bf}
             ctx.rec2 = rec2
+            ctx.inputs.update({'b_' + k: ('array', 'b_' + k, Bf[k].n) for k in Bf})
+            ctx.argspec.append(('obj', self.cls, {k: 'b_' + k for k in Bf}))
         if self.func == 'mul_scalar':
             ctx.fac = in_real('fac', values)
             st.vars['fac'] = ctx.fac
+            ctx.inputs['fac'] = ('real', 'fac')
+            ctx.argspec.append(('val', 'fac'))
         return st, pre, ctx
 
     def posts(self, st, ret, c):
@@ -184,7 +192,11 @@ class Reconcile(Contract):
             pre.append(cmp('<', a, b))
             info.append((st.acc(sp), a, b, sp))
         st.vars['spike_trains'] = trains
-        ctx = Ctx(mode=mode, info=info, inputs={}, argorder=[])
+        inputs, objs = {}, []
+        for k, n in enumerate(size):
+            inputs.update({'sp%d' % k: ('array', 'sp%d' % k, info[k][0].n), 'ts%d' % k: ('real', 'ts%d' % k), 'te%d' % k: ('real', 'te%d' % k)})
+            objs.append(dict(spikes='sp%d' % k, t_start='ts%d' % k, t_end='te%d' % k))
+        ctx = Ctx(mode=mode, info=info, inputs=inputs, argorder=[], argspec=[('objlist', 'SpikeTrain', objs)])
         return st, pre, ctx
 
     def posts(self, st, ret, c):
@@ -224,7 +236,12 @@ class Merge(Contract):
             pre.append(spec.valid_train(S, t0, t1, nonempty=False))
             info.append(S)
         st.vars['spike_trains'] = trains
-        return st, pre, Ctx(mode=mode, info=info, t0=t0, t1=t1, inputs={}, argorder=[])
+        inputs = {'t_start': ('real', 't_start'), 't_end': ('real', 't_end')}
+        objs = []
+        for k, n in enumerate(size):
+            inputs['sp%d' % k] = ('array', 'sp%d' % k, info[k].n)
+            objs.append(dict(spikes='sp%d' % k, t_start='t_start', t_end='t_end'))
+        return st, pre, Ctx(mode=mode, info=info, t0=t0, t1=t1, inputs=inputs, argorder=[], argspec=[('objlist', 'SpikeTrain', objs)])
 
     def posts(self, st, ret, c):
         f = st.heap[ret.id]
@@ -328,7 +345,10 @@ class DefaultThresh(Contract):
             lists.append([S[i] for i in range(n)])
             accs.append(S)
         st.vars.update(train_list=lists, t_start=t0, t_end=t1)
-        return st, pre, Ctx(mode=mode, accs=accs, t0=t0, t1=t1, inputs={}, argorder=[])
+        inputs = {'t_start': ('real', 't_start'), 't_end': ('real', 't_end')}
+        inputs.update({'tr%d' % k: ('array', 'tr%d' % k, accs[k].n) for k in range(len(size))})
+        return st, pre, Ctx(mode=mode, accs=accs, t0=t0, t1=t1, inputs=inputs, argorder=[],
+                            argspec=[('listoflists', ['tr%d' % k for k in range(len(size))]), ('val', 't_start'), ('val', 't_end')])
 
     def posts(self, st, ret, c):
         cnt, ssq = 0, 0
